@@ -274,6 +274,12 @@ def run(res, tier, seed):
             faults += [("gzip-short-badcrc-%d" % len(payload), raw[:-8] + _struct.pack("<I", 12345) + raw[-4:]),
                        ("gzip-short-badlen-%d" % len(payload), raw[:-4] + _struct.pack("<I", 7)),
                        ("gzip-short-intact-%d" % len(payload), raw)]
+        # a gzip container of two members: the first intact and shorter than a header, the second with damaged deflate data
+        for cut in (64, 100, 400):
+            second = bytearray(gzip.compress(base[cut:cut + 3000]))
+            second[12] ^= 0x07          # invalid block type / broken code lengths in the deflate stream
+            second[20] ^= 0xFF
+            faults.append(("gzip-two-members-second-damaged-%d" % cut, gzip.compress(base[:cut]) + bytes(second)))
         for label, blob in faults:
             fo = io.BytesIO(blob)
             p0 = rng.choice([0, 0, min(len(blob), 3)])
